@@ -156,13 +156,17 @@ def rule_capacity(ctx: Ctx) -> None:
                 if bounded is not False and new is not False and not any(n in ltests for n in p.nodes):
                     ok, why = False, f"path [{p.describe()}] stores a new key without the eviction loop"
         body_calls = [path_of(c.func) for s in walk_stmts(lp.body) for c in calls_in(s)]
-        if body_calls != ["self._evict_lru"] or any(isinstance(s, (ast.Break, ast.Continue, ast.Return)) for s in walk_stmts(lp.body)):
-            ok, why = False, "loop body is not exactly one _evict_lru()"
+        inline_evict = "self._access_order.pop" in body_calls and "self._cache.pop" in body_calls   # the helper's body written out in the loop
+        if (body_calls != ["self._evict_lru"] and not inline_evict) or any(isinstance(s, (ast.Break, ast.Continue, ast.Return)) for s in walk_stmts(lp.body)):
+            ok, why = False, "loop body is not exactly one eviction (`_evict_lru()` or its body)"
     ctx.ob("C16-1", "G1", sto, stores[0], ok, "SoftTTLCache: a new key is stored only after evicting until len(cache) < capacity (when bounded), atomically" + (f" — {why}" if why else ""))
-    el = prog.func(ST, "SoftTTLCache._evict_lru")
-    vic = stmts_matching(el, "lru_key = self._access_order.pop(0)")
-    pops = [c for c in calls_in(el.node) if path_of(c.func) == "self._cache.pop" and c.args and path_of(c.args[0]) == "lru_key"]
-    ctx.ob("C16-1", "G2", el, vic[0][0] if vic else None, len(vic) == 1 and len(pops) == 1 and not el.is_generator, "SoftTTLCache._evict_lru removes the least recently used key from both the order list and the cache")
+    el = prog.try_func(ST, "SoftTTLCache._evict_lru") or sto   # the eviction step may be a helper or written out inside _store
+    vic = [s_ for s_ in walk_stmts(el.node.body) if isinstance(s_, ast.Assign) and isinstance(s_.targets[0], ast.Name) and unparse(s_.value).replace(" ", "") == "self._access_order.pop(0)"]
+    vname = vic[0].targets[0].id if vic else None
+    pops = [c for c in calls_in(el.node) if path_of(c.func) == "self._cache.pop" and c.args and path_of(c.args[0]) == vname]
+    direct = [c for c in calls_in(el.node) if path_of(c.func) == "self._cache.pop" and c.args and unparse(c.args[0]).replace(" ", "") == "self._access_order.pop(0)"]
+    ok_ev = (len(vic) == 1 and len(pops) == 1) or (not vic and len(direct) == 1)
+    ctx.ob("C16-1", "G2", el, vic[0] if vic else (direct[0] if direct else None), ok_ev and not el.is_generator, "SoftTTLCache eviction removes the least recently used key (front of the access order) from both the order list and the cache")
 
     # PageCache: every insertion is covered by a capacity guarantee established in the same atomic step
     pc = prog.cls(PC, "PageCache")
